@@ -377,8 +377,8 @@ func Inject(r *rng.R, p *Program) (Injection, bool) {
 			f.Defs = append(f.Defs, d)
 			return "enum DupValues {A = 1, B = 1, C = 2}", true
 		}},
-		// ---- probes of known findings ----
-		{"D12-default-on-typedef-of-container", "K:D12", func() (string, bool) {
+		// ---- shapes of repaired findings and probes of known ones ----
+		{"D12-default-on-typedef-of-container", "A", func() (string, bool) {
 			f := p.Files[r.Intn(len(p.Files))]
 			td := &Def{File: f, Name: "IntListAlias", Kind: Typedef, Index: 1 << 20, Target: &Type{K: List, Elem: &Type{K: I32}}}
 			h := &Def{File: f, Name: "DefaultHost", Kind: Struct, Index: 1 << 20, Fields: []*Field{
